@@ -11,7 +11,8 @@
 (* trace state IS the observed state (only the ghosts hist / localVer are  *)
 (* derived), so the invariants of BlPersist are evaluated on what the code *)
 (* really did: a property invariant failing here is a violation of C18 on  *)
-(* a real execution.  Whether the step is one BlPersist allows is counted  *)
+(* a real execution (the reload half of Converged / CrashLeavesSnapshot is  *)
+(* judged by the driver with the real loader; here: the file halves).  Whether the step is one BlPersist allows is counted  *)
 (* separately in `drift` (model/code difference, not a verdict).           *)
 (* Runs are concatenated, separated by Reset lines.                        *)
 (***************************************************************************)
@@ -55,7 +56,7 @@ Observed ==
   /\ snap' = [p \in Writers |-> IF p = Ln.p /\ Ln.g = 1
                                   THEN [ver |-> Ln.ver, set |-> SetOf(Ln.mem)] ELSE snap[p]]
   /\ hist' = IF Ln.version = version + 1 THEN Append(hist, SetOf(Ln.mem)) ELSE hist
-  /\ localVer' = IF local' # local /\ Ln.p \in Writers THEN snap[Ln.p].ver ELSE localVer
+  /\ localVer' = IF (local' # local \/ Ln.g = 8) /\ Ln.p \in Writers THEN snap[Ln.p].ver ELSE localVer
 
 (* a writer's step: is it one the specification allows from here? *)
 TStep ==
